@@ -18,8 +18,11 @@
 (*   werr     always 0 (Prometheus-side write errors are outside C12 / C13; the *)
 (*            field is kept so that the formulas can exclude such runs)         *)
 (*   stop     scraping administratively stopped when the scrape starts          *)
-(*   flip     the stop setting is toggled while the target is answering (the     *)
-(*            code reads it once, at the start: no effect on this scrape)        *)
+(*   flip     while the target is answering, the stop setting is toggled (the     *)
+(*            code reads it once, at the start: no effect on this scrape) and a   *)
+(*            new assignment arrives that keeps the target and adds another one    *)
+(*            (the target's status entry is carried over: the bookkeeping of the    *)
+(*            scrape under way goes to the entry that is reported afterwards)       *)
 (*   assigned the target has a status entry on this shard                      *)
 (*                                                                          *)
 (* Constants pin the two places where code and property disagree(d):          *)
